@@ -317,7 +317,7 @@ def read_ids(path, delimiter=None, timestamptype=None, comments='#', interaction
             try:
                 for stamp in stamps:
                     ids[timestamptype(stamp)] = None
-            except ValueError:
+            except Exception:
                 raise TypeError("Failed to convert timestamp %s to type %s." % (stamps, timestamptype))
 
     ids = compact_timeslot(ids.keys())
